@@ -53,8 +53,8 @@ PROPS = {
         assumptions=["YAML/JSON front end delivers the subject string unchanged (exercised by the pki op)"],
     ),
     "C04": dict(
-        modules=['Gopki.Props.C04', 'Gopki.Props.C05'],
-        theorems=['Calendar.civilFromDays_daysFromCivil', 'Calendar.wallOf_goDate_midnight', 'C04.C04_date_is_local_midnight', 'C04.C04_invalid_rejected', 'C04.C04_duration_grammar', 'C04.C04_duration_months_digits', 'C04.C04_utc_tag', 'C04.C04_inherit', 'Calendar.era_split', 'Calendar.yoe_table', 'Cal.mp_inv', 'Cal.doy_bounds', 'C05.model_defaults_eq_facts'],
+        modules=['Gopki.Props.C04', 'Gopki.Props.C05', 'Gopki.Props.C02'],
+        theorems=['C02.C02_time_roundtrip', 'Calendar.civilFromDays_daysFromCivil', 'Calendar.wallOf_goDate_midnight', 'C04.C04_date_is_local_midnight', 'C04.C04_invalid_rejected', 'C04.C04_duration_grammar', 'C04.C04_duration_months_digits', 'C04.C04_utc_tag', 'C04.C04_inherit', 'Calendar.era_split', 'Calendar.yoe_table', 'Cal.mp_inv', 'Cal.doy_bounds', 'C05.model_defaults_eq_facts'],
         ops=["validity", "pki"],
         rule="validity: every calendar day of two years (thorough: 1950-2200) x rotating zone offsets x {from, until, from+duration, from+until}, boundary dates x 9 offsets x 15 durations, "
              "impossible dates, malformed durations, random combinations; non-trivial = well-formed input with at least one of from/until/duration",
@@ -79,7 +79,7 @@ PROPS = {
         assumptions=["Crypto laws: a signature made with a private key verifies under its public key; ECDSA/RSA key type is what the key's Go type says"],
     ),
     "C02": dict(
-        modules=['Gopki.Props.C02', 'Gopki.Props.Tags'], theorems=['C02.C02_reencode_identity', 'C02.C02_model_cert_decodable', 'C02.C02_algid_params', 'C02.C02_inner_eq_outer', 'C02.C02_version_v3', 'C02.C02_serial_source', 'C02.C02_serial_len', 'C02.C02_time_form', 'Der.dec_sound', 'Der.dec_enc', 'Tags.tags_certificate'], ops=['pki', 'hist'],
+        modules=['Gopki.Props.C02', 'Gopki.Props.Tags'], theorems=['C02.C02_reencode_identity', 'C02.C02_model_cert_decodable', 'C02.C02_algid_params', 'C02.C02_inner_eq_outer', 'C02.C02_version_v3', 'C02.C02_serial_source', 'C02.C02_serial_len', 'C02.C02_time_form', 'C02.C02_time_roundtrip', 'Der.dec_sound', 'Der.dec_enc', 'Tags.tags_certificate'], ops=['pki', 'hist'],
         rule="pki: forests of 1-5 entities (random parent vector, nested directories, yaml/yml/json), every key algorithm except RSA>=2048 in quick, configured/omitted signature algorithms, "
              "subjects from the documented grammar incl. UTF-8 and custom OIDs, 0-6 extensions of all 11 kinds, serials, unique ids, validity forms, manipulations in 1 of 5 forests, 6 zone offsets, 5 flag sets; "
              "every generated certificate is compared byte for byte with the model and read by the strict decoder; non-trivial = at least one certificate generated",
